@@ -177,6 +177,17 @@ typedef struct { mpz_ptr *data; size_t size; size_t cap; __mpz_struct *cells; } 
 static inline size_t vec_mpz__size(vec_mpz *v) { return v->size; }
 static inline mpz_ptr *vec_mpz__op_index(vec_mpz *v, size_t i)
 { __CPROVER_assert(i < v->size, "vector index in range"); v->data[i] = &v->cells[i]; return &v->data[i]; }
+/* local vectors take their slot and cell arrays from a pool provided by the contract's requires (no allocation inside
+ * the function, so that they can be used inside loops under contract); a pushed pointer is dropped: slot k owns cells[k] */
+#ifndef VEC_MPZ_POOL
+#define VEC_MPZ_POOL 6
+#endif
+extern mpz_ptr *vec_mpz_pool_data[VEC_MPZ_POOL]; extern __mpz_struct *vec_mpz_pool_cells[VEC_MPZ_POOL]; extern size_t vec_mpz_pool_n, vec_mpz_pool_cap;
+static inline void vec_mpz__ctor_0(vec_mpz *v)
+{ __CPROVER_assert(vec_mpz_pool_n < VEC_MPZ_POOL, "model limit: pool of local integer vectors");
+  v->data = vec_mpz_pool_data[vec_mpz_pool_n]; v->cells = vec_mpz_pool_cells[vec_mpz_pool_n]; v->size = 0; v->cap = vec_mpz_pool_cap; vec_mpz_pool_n = vec_mpz_pool_n + 1; }
+static inline void vec_mpz__push_back(vec_mpz *v, mpz_ptr p) { (void)p; __CPROVER_assert(v->size < v->cap, "model limit: vector capacity"); v->size = v->size + 1; }
+static inline void vec_mpz__clear(vec_mpz *v) { v->size = 0; }
 #elif defined(VEC_DECL)
 VEC_DECL(vec_mpz, mpz_ptr)   /* std::vector<mpz_ptr> when stl.h is in use */
 #endif
